@@ -346,8 +346,21 @@ def scenarioCase (args : List String) (impl : String) : Verdict :=
     | _, _ => bad "scenario-args"
   | _ => bad "scenario-arity"
 
+/-- n Shutdown calls racing for the critical section (fresh server, or one Serve call running): `downEnter`
+    is one step of the model, so whichever call comes first does the work and every call returns nil -/
+def downsCase (args : List String) (impl : String) : Verdict :=
+  match args with
+  | [n] =>
+    match n.toNat? with
+    | some _ =>
+      mk impl "all=nil" [("no_panic_no_race", !((impl.splitOn "CRASH").length > 1 || (impl.splitOn "RACE").length > 1 || (impl.splitOn "PANIC").length > 1)),
+                         ("concurrent_shutdowns_all_return_nil", impl == "all=nil")]
+    | none => bad "downs-n"
+  | _ => bad "downs-arity"
+
 def c07 (op : String) (args : List String) (impl : String) : Verdict :=
   match op with
+  | "downs" => downsCase args impl
   | "scenario" => scenarioCase args impl
   | _ => bad s!"op:{op}"
 
